@@ -31,6 +31,7 @@ type want struct {
 	isErr  bool
 	named  []kv                        // parameters named by the statement with the exact value they must arrive with
 	opt    []kv                        // parameters the statement does not name: integrity when present, absence is fine (DESIGN 1.6)
+	optAny []string                    // like opt, value made up by the provider (expires_in)
 	opaque []string                    // named parameters whose value the provider made up: must be present and pass check
 	check  func(name, val string) bool // validity of an opaque value (code = what was stored, token verifies, ...)
 	// soft: the statement does not oblige the provider to answer with a redirect here
@@ -246,8 +247,11 @@ func judge(w *want, g *got) engine.Result {
 		kind = "error"
 	}
 	rule := kind + "/" + ch
+	if hasFragment(w.uri) {
+		rule = kind + "/uri-has-fragment/" + ch
+	}
 	if !strict {
-		rule = kind + "/default-" + ch
+		rule = strings.Replace(rule, "/"+ch, "/default-"+ch, 1)
 	}
 	if w.soft {
 		rule += "+redirect-optional"
@@ -413,6 +417,9 @@ func judge(w *want, g *got) engine.Result {
 			known[p.k] = true
 		}
 		for _, n := range w.opaque {
+			known[n] = true
+		}
+		for _, n := range w.optAny {
 			known[n] = true
 		}
 		for _, in := range d.inputs {
